@@ -69,7 +69,7 @@ struct AddRec
   bool ok       = false;
   bool kept     = false;  // after a failed Add the caller's unique_ptr still held the element
   int consumed  = 0;
-  uint64_t consumed_at = 0;   // stamp of the Consume call's return that took it
+  uint64_t consumed_at = 0;   // stamp of the moment the consumer's callback took it out of its slot
 };
 
 struct QueueCfg
@@ -94,7 +94,7 @@ struct QueueHistory
 {
   std::vector<std::vector<AddRec>> adds;               // [producer][seq]
   std::vector<std::pair<uint32_t, uint32_t>> consumed;  // in consumption order
-  std::vector<uint64_t> consumed_stamp;                 // return stamp of the taking Consume
+  std::vector<uint64_t> consumed_stamp;                 // stamp of the callback taking the element
   std::vector<uint64_t> consume_calls;                  // call stamps of Consume calls
   uint64_t unknown_consumed = 0;
 };
@@ -153,8 +153,8 @@ static void check_queue_history(const QueueCfg &c, QueueHistory &h, const std::s
                         c.describe());
       if (!a.ok)
       {
-        // legitimate only if (successful Adds started before this one finished) - (elements taken by Consume
-        // calls that returned before this one started) >= capacity
+        // legitimate only if (successful Adds started before this one finished) - (elements the consumer's
+        // callback had taken before this one started) >= capacity
         uint64_t A = static_cast<uint64_t>(std::lower_bound(ok_calls.begin(), ok_calls.end(), a.ret) - ok_calls.begin());
         uint64_t C = static_cast<uint64_t>(std::lower_bound(consumed_rets.begin(), consumed_rets.end(), a.call) -
                                            consumed_rets.begin());
@@ -276,10 +276,15 @@ static QueueRun execute_queue(const QueueCfg &c, int consumer_style, uint64_t se
         }
         h.consume_calls.push_back(stamp());
         std::vector<std::pair<uint32_t, uint32_t>> got;
+        std::vector<uint64_t> took;
         buf.Consume(k, [&](CircularBufferRange<AtomicUniquePtr<Elem>> range) noexcept {
           range.ForEach([&](AtomicUniquePtr<Elem> &ptr) noexcept {
             std::unique_ptr<Elem> out;
             ptr.Swap(out);
+            // "consumed" = the moment the consumer's callback has taken the element out of its slot (the
+            // statement's "what was consumed before it started"); the queue has published the new tail before it
+            // hands the range to the callback, so an Add that starts later must see the room
+            took.push_back(stamp() + 1);
             if (!out)
               got.emplace_back(~0u, ~0u);
             else
@@ -287,11 +292,10 @@ static QueueRun execute_queue(const QueueCfg &c, int consumer_style, uint64_t se
             return true;
           });
         });
-        uint64_t rs = stamp() + 1;
-        for (auto &g : got)
+        for (size_t gi = 0; gi < got.size(); ++gi)
         {
-          h.consumed.push_back(g);
-          h.consumed_stamp.push_back(rs);
+          h.consumed.push_back(got[gi]);
+          h.consumed_stamp.push_back(took[gi]);
         }
       }
       vfs::my_id() = -1;
@@ -678,10 +682,12 @@ static void run_queue_free(uint64_t seed)
         }
         size_t k = static_cast<size_t>(cr.range(1, static_cast<int64_t>(sz)));
         std::vector<std::pair<uint32_t, uint32_t>> got;
+        std::vector<uint64_t> took;
         buf.Consume(k, [&](CircularBufferRange<AtomicUniquePtr<Elem>> range) noexcept {
           range.ForEach([&](AtomicUniquePtr<Elem> &ptr) noexcept {
             std::unique_ptr<Elem> out;
             ptr.Swap(out);
+            took.push_back(vf::EventLog::now());  // consumed = taken by the callback (see the serialised run)
             if (!out)
               got.emplace_back(~0u, ~0u);
             else
@@ -689,11 +695,10 @@ static void run_queue_free(uint64_t seed)
             return true;
           });
         });
-        uint64_t rs = vf::EventLog::now();
-        for (auto &g : got)
+        for (size_t gi = 0; gi < got.size(); ++gi)
         {
-          h.consumed.push_back(g);
-          h.consumed_stamp.push_back(rs);
+          h.consumed.push_back(got[gi]);
+          h.consumed_stamp.push_back(took[gi]);
         }
       }
     });
